@@ -328,6 +328,29 @@ fn damage(t: &mut Tape, bytes: &mut Vec<u8>, other: &[u8], rep: &mut WorldReport
             rep.fire("nest");
             format!("prefix {depth} headers {hdr:#x}")
         }
+        _ if t.chance(1, 2) => {
+            // the header of an existing array of small integers (a byte field in its array form: a
+            // policy id, an address, a txid) rewritten to promise a huge element count
+            let mut at = None;
+            for i in 0..bytes.len().saturating_sub(3) {
+                let short = (0x81..=0x97).contains(&bytes[i]) && bytes[i + 1] < 0x18 && bytes[i + 2] < 0x20;
+                let long = bytes[i] == 0x98 && bytes[i + 2] <= 0x18 + 1;
+                if (short || long) && t.chance(1, 3) {
+                    at = Some((i, if long { 2 } else { 1 }));
+                    break;
+                }
+            }
+            match at {
+                Some((i, hl)) => {
+                    let mut hdr = vec![0x9b];
+                    hdr.extend((*t.pick(&[u64::MAX, (1u64 << 47) - 1, 1 << 40, 1 << 32])).to_be_bytes());
+                    bytes.splice(i..i + hl, hdr);
+                    rep.fire("biglen-in-place");
+                    format!("array header at {i} rewritten to a huge length")
+                }
+                None => "biglen-in-place(no array found)".into(),
+            }
+        }
         _ => {
             // a length header that promises far more than is there
             if bytes.is_empty() {
@@ -1337,7 +1360,16 @@ fn inner_c16(world_no: u64, t: &mut Tape, rep: &mut WorldReport) {
                 _ => {
                     // byte damage under the text encoding
                     let mut raw = bytes.clone();
-                    let note = damage(t, &mut raw, &[0xa0], rep);
+                    // the same catalogue as on the raw channel, including nesting the typed decoder
+                    // descends into and over-long identifiers
+                    let note = if t.chance(1, 3) {
+                        let (w, what) = schema_nest(t, &bytes);
+                        raw = w;
+                        rep.fire("schema-nest");
+                        what
+                    } else {
+                        damage(t, &mut raw, &[0xa0], rep)
+                    };
                     doc["tir"][content_key] = json!(if b64 {
                         base64::engine::general_purpose::STANDARD.encode(&raw)
                     } else {
